@@ -50,7 +50,12 @@ func (r *Rma[T]) Compute(c <-chan T) <-chan T {
 		sma := NewSma[T]()
 		sma.Period = r.Period
 
-		before := <-sma.Compute(helper.Head(c, r.Period))
+		before, ok := <-sma.Compute(helper.Head(c, r.Period))
+		if !ok {
+			// Fewer values than the period: no average to start from.
+			return
+		}
+
 		result <- before
 
 		for n := range c {
